@@ -518,7 +518,7 @@ def run(ctx):
         lat = np.arange(-6, 7) / 2.0
         ens = rng.choice(lat, size=(n, m))
         obs = rng.choice(np.concatenate([lat, lat + 0.25]), size=n)
-        censor = float(rng.choice([-10.0, -1.0, 0.0, 0.25, 1.5]))
+        censor = float(rng.choice([-10.0, -1.0, 0.0, 0.25, 1.5, -2.5, -1.5, -2.75, 2.5]))
         run_pit_case(ctx, {"kind": "pit", "obs": obs, "ens": ens,
                            "random": bool(it % 2), "cst": float(rng.uniform(0, 0.5))
                            if it % 5 else [0.0, 0.5][it % 2],
@@ -574,7 +574,10 @@ def run(ctx):
         # rejection
         bad = u.copy()
         j = int(rng.integers(0, nn))
-        bad[j] = [1.0 + 1e-9, -1e-9, 1.5, -0.5, np.nan, np.inf, -np.inf][it % 7]
+        bad[j] = [1.0 + 1e-9, -1e-9, 1.5, -0.5, np.nan, np.inf, -np.inf,
+                  # outside by the smallest possible amounts
+                  -5e-324, -1e-300, -1e-310, float(np.nextafter(1.0, 2.0)), -2.3e-308,
+                  -1e-301, 1e300][it % 14]
         run_reject_case(ctx, {"kind": "reject", "u": bad})
         if nn >= 2 and it % 3 == 0:
             # several values outside, on both sides in equal or unequal numbers, or all
